@@ -40,6 +40,7 @@ import (
 
 var run *vk.Run
 var stopProfile = func() {}
+var debugPend = os.Getenv("C08_DEBUG_PEND") != ""
 
 // ---------------------------------------------------------------------------------------------
 // commands
@@ -679,10 +680,7 @@ func judge(st *state, o op, resps []srvkit.Resp, closed bool, pr *probeResult, l
 				tg = tgs[0]
 			}
 		}
-		for _, u := range tgs[0] {
-			own[u] = true
-		}
-		for _, u := range tgs[1] {
+		for _, u := range tg {
 			own[u] = true
 		}
 		st.setDel(s.Sel, o.S, tg, o.K != kStoreDel)
@@ -698,20 +696,54 @@ func judge(st *state, o op, resps []srvkit.Resp, closed bool, pr *probeResult, l
 			st.remove(src, func(x msg) bool { return hasU(tg, x.UID) })
 		}
 	case kFetch, kUIDFetch:
-		tgs := st.targets(o)
-		for _, u := range tgs[0] {
-			own[u] = true
-		}
-		for _, u := range tgs[1] {
+		for _, u := range st.targets(o)[1] {
 			own[u] = true
 		}
 	}
 	s = &st.S[o.S]
 	owedX := s.countPend('X')
 
+	// Which FETCH lines answer the command itself and which are unilateral flag updates matters
+	// only for the book-keeping of owed notifications (part of the merge key), never for a verdict:
+	// a message addressed by the command gets one answer of its own if the session had been told of
+	// it, or if it is (wrongly) reported under sequence number 0.
+	ownLeft := map[uint32]int{}
+	for u := range own {
+		if hasU(s.View, u) {
+			ownLeft[u] = 1
+		}
+	}
+	for i := range resps {
+		if r := &resps[i]; r.Tag == "*" && r.Kind() == "FETCH" {
+			if n, _ := r.Num(); n == 0 {
+				if u, _, okf := parseFetch(*r); okf && own[u] {
+					ownLeft[u] = 1
+				}
+			}
+		}
+	}
+	flagUpdate := func(uid uint32, del bool) bool {
+		if ownLeft[uid] > 0 {
+			ownLeft[uid]--
+			return false
+		}
+		for j, e := range s.Pend {
+			if e.K == 'F' && e.UID == uid && e.Del == del {
+				s.Pend = append(s.Pend[:j:j], s.Pend[j+1:]...)
+				return true
+			}
+		}
+		for j, e := range s.Pend {
+			if e.K == 'F' && e.UID == uid {
+				s.Pend = append(s.Pend[:j:j], s.Pend[j+1:]...)
+				return true
+			}
+		}
+		return true
+	}
+
 	// ---- every response line ----
 	expN, updates := 0, 0
-	seen := map[uint32]int{}
 	for i := range resps {
 		r := &resps[i]
 		if r.Tag != "*" {
@@ -780,10 +812,13 @@ func judge(st *state, o op, resps []srvkit.Resp, closed bool, pr *probeResult, l
 			}
 			if n == 0 {
 				k := "seq-zero-in-fetch:" + cls
-				if hasU(s.Unann, uid) {
-					k += "-unannounced"
+				if hasU(s.Unann, uid) && (o.K == kUIDFetch || o.K == kUIDStore) {
+					// one defect (DESIGN §5 #11): a UID command reaches a message whose EXISTS is
+					// still queued for this session
+					k = "seq-zero-in-fetch:uid-command-unannounced"
 				}
 				add(recSkip, k, "%q: sequence number 0 (UID %d, announced count %d, not yet announced UIDs %v)", r.Text, uid, s.Count, s.Unann)
+				flagUpdate(uid, del)
 				continue
 			}
 			if s.Sel < 0 || n > s.Count {
@@ -797,16 +832,8 @@ func judge(st *state, o op, resps []srvkit.Resp, closed bool, pr *probeResult, l
 					add(recPrune, "fetch-uid-conflict:"+cls, "%q: the client had learnt UID %d for sequence number %d", r.Text, s.Slots[n-1], n)
 				}
 				s.Slots[n-1] = uid
-				seen[uid]++
-				if !own[uid] || seen[uid] > 1 {
-					// unilateral flag update
+				if flagUpdate(uid, del) {
 					updates++
-					for j, e := range s.Pend {
-						if e.K == 'F' && e.UID == uid && e.Del == del {
-							s.Pend = append(s.Pend[:j:j], s.Pend[j+1:]...)
-							break
-						}
-					}
 				}
 			}
 		case kind == "SEARCH":
@@ -831,6 +858,13 @@ func judge(st *state, o op, resps []srvkit.Resp, closed bool, pr *probeResult, l
 	}
 	if o.noExpunge() && owedX > 0 && expN == 0 {
 		ss.heldBack++
+	}
+
+	if debugPend && ok && !o.noExpunge() && o.K != kIdle && o.K != kAppend && o.K != kSelect && len(s.Pend) > 0 {
+		fmt.Fprintf(os.Stderr, "DEBUG owed after full poll: %s -> %s\n", o, pendString(s.Pend))
+		for _, r := range resps {
+			fmt.Fprintf(os.Stderr, "    %s\n", strings.TrimRight(string(r.Raw), "\r\n"))
+		}
 	}
 
 	// ---- each removed message is reported exactly once ----
@@ -964,7 +998,11 @@ func execute(cfg config, hist []op, start *state, checkFrom int, vb io.Writer, s
 			}
 			continue
 		}
-		pr := w.probe()
+		var pr *probeResult
+		if !closed {
+			// (a connection that died in a panic may have left a mailbox locked: nothing to probe)
+			pr = w.probe()
+		}
 		fs := judge(st, o, resps, closed, pr, w.h.Log.Snapshot(), ss)
 		perStep[i] = fs
 		if vb != nil {
@@ -973,7 +1011,7 @@ func execute(cfg config, hist []op, start *state, checkFrom int, vb io.Writer, s
 			for _, l := range strings.Split(strings.TrimRight(string(out), "\r\n"), "\r\n") {
 				fmt.Fprintf(vb, "S%d: %s\n", o.S, l)
 			}
-			for m := 0; m < 2; m++ {
+			for m := 0; m < 2 && pr != nil; m++ {
 				fmt.Fprintf(vb, "    mailbox %s: model %v  probe %v\n", mbName[m], st.MB[m], pr.MB[m])
 			}
 			for j, s := range st.S {
@@ -1302,6 +1340,9 @@ func (s *search) expand(n *node, idx int, maxDepth int, ss *stepStats) {
 		st2, per := execute(s.cfg, h, n.st, len(h)-1, nil, ss)
 		atomic.AddInt64(&s.trans, 1)
 		fs := per[len(h)-1]
+		if debugPend && o.K == kNoop && len(st2.S[o.S].Pend) > 0 {
+			fmt.Fprintf(os.Stderr, "DEBUGH %s\n", histString(h))
+		}
 		c := &node{parent: n, op: o, depth: n.depth + 1, total: n.total + 1, st: st2, resync: n.resync, order: uint64(idx)<<8 | uint64(j), rootIdx: n.rootIdx}
 		if len(fs) > 0 {
 			s.record(fs, h, c)
@@ -1391,10 +1432,11 @@ func main() {
 	sessFlag := flag.Int("sessions", 0, "override the number of sessions")
 	prof := flag.String("cpuprofile", "", "write a CPU profile")
 	workersFlag := flag.Int("workers", 2*runtime.GOMAXPROCS(0), "worker goroutines (each with its own server per transition)")
+	ballastFlag := flag.Int("ballast", 64, "MiB of ballast")
 	gcFlag := flag.Int("gcpercent", 400, "GC percent (every transition builds a server: allocation heavy, tiny live heap)")
 	run = vk.Start("C08", "model_checking")
 	debug.SetGCPercent(*gcFlag)
-	ballast := make([]byte, 1<<30) // never touched: only makes GC cycles rarer while the live heap is small
+	ballast := make([]byte, *ballastFlag<<20) // never touched: only makes GC cycles rarer while the live heap is small
 	defer runtime.KeepAlive(ballast)
 	if *prof != "" {
 		f, _ := os.Create(*prof)
@@ -1578,6 +1620,11 @@ func main() {
 	fmt.Printf("C08 sessions=%d mailbox_cap=%d depth=%d/%d states=%d transitions=%d frontier_left=%d frontier_emptied=%v pruned=%d\n",
 		cfg.K, cfg.Cap, depthReached, maxDepth, s.states(), s.trans, frontierLeft, frontierEmpty, s.pruned)
 	stopProfile()
+	if mp := os.Getenv("C08_MEMPROFILE"); mp != "" {
+		f, _ := os.Create(mp)
+		pprof.Lookup("allocs").WriteTo(f, 0)
+		f.Close()
+	}
 	run.Finish()
 }
 
